@@ -123,6 +123,17 @@ def bounds(tier):
             "swap": "roles exchanged for all 2-/3-point sets + listed sets",
             "mirror": "all 2..4-point sets + listed sets x the 24 improper cube symmetries (exact; with noise n != 4)",
             "many": "cubes {0..k-1}^3, k=3,4,5,10: 72 exact motions; first/middle/last atom displaced; 3 masks",
+            "identity": "6 sets x 5 containers x {fixed is mobile, equal copy, identity AffineTransformation.apply, "
+                        "superimpose_without_outliers of equal structures, translate by 0, rotate/rotate_centered by 0}: "
+                        "result is a new object of the same type and value; editing it leaves the argument unchanged",
+            "bparam": "coordinates of 0, 1 and 4 dimensions must be refused (fixed / mobile / apply); superimpose_homologs "
+                      "x substitution_matrix {default, name, other name, object} x gap_penalty {-10, (-10,-1), -1} x "
+                      "terminal_penalty {False, True} over 3 fixed x 36 mobile peptides (+ nucleotides with NUC)",
+            "combo": "mirror image + offset (64,-32,16) + noise + every partial mask on all 3-point sets and 3 listed "
+                     "sets; NaN coordinate in the one atom the mask excludes (EITHER: exception or NaN stays local)",
+            "derived": "13 kinds of library-made inputs (fitted, applied, translate/rotate/rotate_centered output, "
+                       "strided / masked / index-reordered AtomArray, stack[i], stack[[2,1]], stack[:, :n], coord view) x "
+                       "{superimpose, superimpose_without_outliers, apply+rmsd} x 6 sets",
         },
         "tolerances": {"coord_rel": 1e-5, "orthonormal": 1e-5, "perturbation": [0.02, 0.02]},
     }
@@ -157,6 +168,8 @@ def build(desc, items=None):
         if nz is not None:
             X[nz[0], nz[1]] += nz[2]
         mob[k] = X @ sp.OCT48_F[g].T + trans[t]
+        if desc.get("nan"):
+            mob[k][desc["nan"][0], desc["nan"][1]] = np.nan   # a missing coordinate
     return F, mob
 
 
@@ -277,7 +290,7 @@ def judge(ctx, site, cls, case, fixed, mobile, w, fitted, R, ct, tt, mat, probe_
 
 def noise_cls(desc):
     mirror = any(g >= 24 for g in desc.get("rots", [])) or any(g >= 24 for g, _ in (desc.get("motions") or []))
-    return ("mirror_" if mirror else "") + ("swapped_" if desc.get("swap") else "") + (
+    return ("nan_" if desc.get("nan") else "") + ("mirror_" if mirror else "") + ("swapped_" if desc.get("swap") else "") + (
         "noise" if desc.get("mags") else "exact")
 
 
@@ -320,7 +333,7 @@ def run_fit_batch(ctx, desc, focus=None):
             keep = mob_in.copy()
             kw = {} if mask is None else {"atom_mask": mask.copy()}
             fitted, tr = struc.superimpose(F_in, mob_in, **kw)
-            if not np.array_equal(mob_in, keep) or not np.array_equal(F_in, F):
+            if not np.array_equal(mob_in, keep, equal_nan=True) or not np.array_equal(F_in, F):
                 ctx.violation("superimpose|input_mutated|" + cls, "an input array was modified", case)
             if not isinstance(fitted, np.ndarray) or fitted.shape != mob.shape:
                 ctx.violation("superimpose|shape|" + cls, "fitted has the wrong type/shape", case,
@@ -355,8 +368,25 @@ def run_fit_batch(ctx, desc, focus=None):
                 R[k], ct[k], tt[k], mat[k] = [x[0] for x in extract(tr, 1)]
                 probe_out[k] = tr.apply(PROBE)
     except Exception as e:  # noqa: BLE001
+        if desc.get("nan"):
+            ctx.count("unspecified")  # a NaN coordinate (outside the mask) may be refused
+            return
         ctx.violation("superimpose|raises_%s|%s" % (type(e).__name__, cls), "legal input raised: %s" % e, case,
                       expected="fitted, transformation", observed=repr(e)[:300])
+        return
+    if desc.get("nan"):
+        # the atom with the missing coordinate is outside the mask: it must stay undefined, everything else is
+        # judged as if that atom did not exist
+        ka = desc["nan"][0]
+        rest = np.array([i != ka for i in range(n)])
+        badnan = ~(np.isnan(fitted[:, ka]).any(axis=1) & np.isfinite(fitted[:, rest]).all(axis=(1, 2)))
+        if badnan.any():
+            ctx.violation("superimpose|nan_pattern|" + cls, "a NaN coordinate outside the mask must stay NaN in fitted "
+                          "and must not reach the other atoms", {**case, "focus": int(np.argmax(badnan))},
+                          observed=fitted[int(np.argmax(badnan))])
+            return
+        judge(ctx, "superimpose", cls, case, F[rest], mob[:, rest], mask[rest], fitted[:, rest], R, ct, tt, mat,
+              probe_in, probe_out, focus)
         return
     if desc.get("swap"):
         judge(ctx, "superimpose", cls, case, mob, np.broadcast_to(F, mob.shape).copy(), mask, fitted, R, ct, tt, mat,
@@ -831,6 +861,8 @@ def run_homolog_case(ctx, case):
     kw = {"min_anchors": ma}
     if case.get("mi") is not None:
         kw["max_iterations"] = case["mi"]
+    if case.get("hp") is not None:
+        kw.update(homolog_extra_kwargs(case))
     types = "".join(sorted({chain_type(c) for c in fch + mch}))
     cls = "%dchain/%s/%s%s" % (len(fch), types, "stack" if case.get("stack") else "array",
                                "/hetero" if case.get("hetero") else "")
@@ -1045,7 +1077,7 @@ def shards(tier, seed):
     for c1 in perms:
         for c2 in perms:
             out.append({"kind": "homolog", "fam": "sub", "f": [c1, c2]})
-    out += [dict(x) for x in AUDIT_SHARDS]
+    out += [dict(x) for x in AUDIT_SHARDS] + [dict(x) for x in AUDIT2_SHARDS]
     # heavy first
     weight = {"fit": 0, "outlier": 1, "shape": 2, "homolog": 3, "audit": 4}
     out.sort(key=lambda s: (weight[s["kind"]], 0 if s.get("size") in (4, 5) else 1))
@@ -1157,6 +1189,8 @@ def _run_shard(shard, ctx):
         for c in homolog_cases(shard, ctx.tier):
             if ctx.journal(json.dumps(c)):
                 run_homolog_case(ctx, c)
+    elif k == "audit" and shard["fam"] in ("identity", "bparam", "combo", "derived"):
+        run_audit2_shard(shard, ctx)
     elif k == "audit":
         run_audit_shard(shard, ctx)
     else:
@@ -1188,6 +1222,12 @@ def replay(case, ctx):
         run_flavour_case(ctx, case)
     elif k == "audit" and case.get("fam") == "reuse":
         run_reuse_case(ctx, case)
+    elif k == "audit" and case.get("fam") == "identity":
+        run_identity_case(ctx, case)
+    elif k == "audit" and case.get("fam") == "derived":
+        run_derived_case(ctx, case)
+    elif k == "audit" and case.get("fam") == "ndim":
+        run_ndim_case(ctx, case)
 
 
 def crash_class(case):
@@ -1554,3 +1594,358 @@ def run_audit_shard(shard, ctx):
     else:
         for d in audit_fit_descs(shard, ctx.seed):
             run_fit_batch(ctx, d)
+
+
+# ===========================================================================
+# second dimension audit: result identity, value branches of the parameters, two features in one
+# input, derived inputs - see notes/C16.md "Second dimension audit"
+# ===========================================================================
+def _rich_array(c, stackdepth=0):
+    """AtomArray(Stack) with annotations, an extra annotation, bonds and a box."""
+    import biotite.structure as struc
+
+    n = len(c[0]) if stackdepth else len(c)
+
+    def one(x):
+        a = struc.AtomArray(n)
+        a.coord = np.asarray(x, dtype=np.float32)
+        a.atom_name[:] = [["CA", "CB", "N", "O", "C", "OG", "P", "X"][i % 8] for i in range(n)]
+        a.res_id[:] = np.arange(1, n + 1)
+        a.element[:] = "C"
+        a.set_annotation("extra", np.arange(n))
+        a.bonds = struc.BondList(n, np.array([[i, i + 1, 1] for i in range(n - 1)], dtype=np.int64).reshape((-1, 3)))
+        a.box = np.eye(3, dtype=np.float32) * 50
+        return a
+
+    if not stackdepth:
+        return one(c)
+    return struc.stack([one(x) for x in c[:stackdepth]])
+
+
+def _state(a):
+    """value snapshot of an ndarray / AtomArray(Stack) through public attributes."""
+    if isinstance(a, np.ndarray):
+        return ("nd", a.shape, a.tobytes())
+    return ("aa", type(a).__name__, a.coord.tobytes(), tuple(sorted(a.get_annotation_categories())),
+            tuple(a.get_annotation(k).tolist().__repr__() for k in sorted(a.get_annotation_categories())),
+            None if a.bonds is None else a.bonds.as_array().tobytes(), None if a.box is None else a.box.tobytes())
+
+
+def _edit_result(r):
+    """re-binding / in-place edits a caller may do to a result he believes to be his own."""
+    if isinstance(r, np.ndarray):
+        r[...] = r + 7.0
+        return
+    r.coord[...] += 7.0
+    r.res_id[0] = 99
+    r.set_annotation("mine", np.zeros(r.array_length()))
+    r.del_annotation("extra")
+    if r.bonds is not None and r.array_length() >= 2:
+        r.bonds.remove_bond(0, 1)
+        r.bonds.add_bond(0, r.array_length() - 1, 2)
+    r.box = None
+
+
+IDENT_CONT = ["nd64", "nd32", "ndst2", "aa", "aas2"]
+IDENT_SCEN = ["same_object", "equal_copy", "identity_apply", "outliers_equal", "translate0", "rotate0"]
+
+
+def run_identity_case(ctx, case):
+    import biotite.structure as struc
+    from biotite.structure import AffineTransformation
+
+    cont, scen = case["cont"], case["scen"]
+    F = np.array(case["fixed"], dtype=np.float64)
+    n = len(F)
+    depth = 2 if cont in ("ndst2", "aas2") else 0
+    models = [F, F + 1.0]
+
+    def mk():
+        if cont == "nd64":
+            return F.copy()
+        if cont == "nd32":
+            return F.astype(np.float32)
+        if cont == "ndst2":
+            return np.stack(models).astype(np.float32)
+        return _rich_array(models if depth else F, depth)
+
+    ctx.ev(1, 1 if n >= 2 else 0)
+    ctx.count("accepted")
+    ctx.count("ev_audit_identity")
+    x = mk()
+    other = mk()
+    before = _state(x)
+    try:
+        if scen == "same_object":
+            results = [struc.superimpose(x, x)[0]]
+        elif scen == "equal_copy":
+            results = [struc.superimpose(other, x)[0]]
+        elif scen == "identity_apply":
+            T = AffineTransformation(np.zeros(3), np.eye(3), np.zeros(3)) if not depth else AffineTransformation(
+                np.zeros((2, 3)), np.stack([np.eye(3)] * 2), np.zeros((2, 3)))
+            results = [T.apply(x)]
+        elif scen == "outliers_equal":
+            r = struc.superimpose_without_outliers(other, x, min_anchors=1)
+            results = [r[0]]
+        elif scen == "translate0":
+            results = [struc.translate(x, [0.0, 0.0, 0.0])]
+        else:
+            results = [struc.rotate(x, [0.0, 0.0, 0.0]), struc.rotate_centered(x, [0.0, 0.0, 0.0])]
+    except Exception as e:  # noqa: BLE001
+        ctx.violation("identity|raises_%s|%s/%s" % (type(e).__name__, scen, cont), "legal call raised: %s" % e, case,
+                      observed=repr(e)[:300])
+        return
+    for r in results:
+        if r is x or r is other:
+            ctx.violation("identity|returns_operand|%s/%s" % (scen, cont),
+                          "an operation documented to return a copy returned its argument itself", case)
+            continue
+        if type(r) is not type(x):
+            ctx.violation("identity|wrong_type|%s/%s" % (scen, cont), "result type differs from the argument's", case,
+                          expected=type(x).__name__, observed=type(r).__name__)
+            continue
+        # the value: nothing had to be done
+        cr, cx = coords_of(r), coords_of(x)
+        if cr.shape != cx.shape or np.max(np.abs(cr - cx)) > 1e-5 * (1 + np.max(np.abs(cx))):
+            ctx.violation("identity|moved|%s/%s" % (scen, cont), "superimposing / transforming by the identity moved "
+                          "the coordinates", case, expected=cx, observed=cr)
+        _edit_result(r)
+        if _state(x) != before:
+            ctx.violation("identity|operand_follows_result|%s/%s" % (scen, cont),
+                          "editing the result changed the argument (shared annotation dict / bonds / buffer)", case)
+            x = mk()
+            before = _state(x)
+    ctx.outcome(("ident", scen, cont, n))
+
+
+def identity_cases():
+    for F in audit_sets():
+        for cont in IDENT_CONT:
+            for scen in IDENT_SCEN:
+                yield {"kind": "audit", "fam": "identity", "fixed": F, "cont": cont, "scen": scen}
+
+
+# --- value branches of the parameters: dimensionality, matrix / gap / terminal parameters ------
+def run_ndim_case(ctx, case):
+    import biotite.structure as struc
+
+    F = np.array(BIG_SETS["helix6"], dtype=np.float64)
+    bad = {"1d": F[0], "0d": np.float64(1.0), "4d": np.stack([F, F])[None]}[case["ndim"]]
+    good = F if case["ndim"] != "4d" else np.stack([F, F])
+    ctx.ev(3)
+    ctx.count("refused", 3)
+    T = struc.superimpose(F, F + 1.0)[1]
+    for name, fn in (("fixed", lambda: struc.superimpose(bad, good)), ("mobile", lambda: struc.superimpose(good, bad)),
+                     ("apply", lambda: T.apply(bad))):
+        try:
+            r = fn()
+        except Exception:  # noqa: BLE001
+            continue
+        ctx.violation("superimpose|no_error|%s_%s" % (name, case["ndim"]),
+                      "coordinates that are not (n,3) / (m,n,3) were accepted", case, expected="exception",
+                      observed=repr(np.shape(r[0] if isinstance(r, tuple) else r)))
+
+
+HP_MATRIX = ["none", "BLOSUM62", "BLOSUM50", "object"]
+HP_GAP = [-10, [-10, -1], -1]
+HP_FIXED = [["ALA", "GLY", "SER"], ["SER", "SER", "ALA", "GLY"], ["GLY", "GLY"]]
+
+
+def hparam_cases():
+    mobs = [list(s) for k in (2, 3) for s in itertools.product(PEP, repeat=k)]
+    for f in HP_FIXED:
+        for m in mobs:
+            for mx in HP_MATRIX:
+                for gi in range(len(HP_GAP)):
+                    for tp in (False, True):
+                        yield {"kind": "homolog", "f": [f], "m": [m], "geo": 1, "ma": 2, "mi": None,
+                               "hp": [mx, gi, tp]}
+    for f in (["A", "DA", "A"], ["DA", "A"]):
+        for m in [list(s) for k in (2, 3) for s in itertools.product(NUC, repeat=k)]:
+            for mx in ("none", "NUC", "object"):
+                for tp in (False, True):
+                    yield {"kind": "homolog", "f": [f], "m": [m], "geo": 2, "ma": 2, "mi": None, "hp": [mx, 0, tp]}
+
+
+def homolog_extra_kwargs(case):
+    """keyword arguments for the 'hp' member of a homolog case."""
+    from biotite.sequence.align import SubstitutionMatrix
+
+    mx, gi, tp = case["hp"]
+    kw = {"gap_penalty": tuple(HP_GAP[gi]) if isinstance(HP_GAP[gi], list) else HP_GAP[gi], "terminal_penalty": tp}
+    if mx == "object":
+        kw["substitution_matrix"] = (SubstitutionMatrix.std_protein_matrix() if case["f"][0][0] in PEP
+                                     else SubstitutionMatrix.std_nucleotide_matrix())
+    elif mx != "none":
+        kw["substitution_matrix"] = mx
+    return kw
+
+
+# --- two features in one input ----------------------------------------------------------------
+BIG_T = [64.0, -32.0, 16.0]
+
+
+def combo_descs(seed):
+    _, mags = pal(seed)
+    sets = lattice_sets(3) + [[list(map(float, p)) for p in BIG_SETS[k]] for k in ("helix6", "generic7", "plane6")]
+    for F in sets:
+        n = len(F)
+        for mask in all_masks(n):
+            if all(mask) and n > 3:
+                continue
+            # mirror image + large offset + partial mask (+ rank deficiency for the planar sets) + noise
+            yield {"kind": "fit", "trans": [[0.0, 0.0, 0.0], BIG_T], "fixed": F, "mode": "stack", "rots": [],
+                   "motions": [[24 + g, 1] for g in (0, 5, 11, 16, 23)], "mags": [mags[1]], "mask": mask}
+    for F in sets[-3:] + lattice_sets(3)[:20]:
+        n = len(F)
+        for k in range(n):
+            for ax in range(3):
+                mask = [i != k for i in range(n)]
+                # missing (NaN) coordinate in an atom the mask excludes
+                yield {"kind": "fit", "trans": [[0.0, 0.0, 0.0], [-3.0, 7.0, 1.0]], "fixed": F, "mode": "stack",
+                       "rots": [], "motions": [[3, 1], [24 + 7, 1]], "mags": [mags[1]], "mask": mask,
+                       "nan": [k, ax], "noise_atoms": [i for i in range(n) if i != k][:2]}
+
+
+# --- derived inputs -----------------------------------------------------------------------------
+DERIVED = ["fitted_nd", "fitted_aa", "applied", "translated", "rotated", "rot_centered", "aa_strided", "aa_masked",
+           "aa_unsorted", "stack_model", "stack_reordered", "stack_atomslice", "coord_view"]
+DERIVED_OPS = ["superimpose", "outliers", "apply_rmsd"]
+
+
+def derive(kind, F):
+    """(object handed out by biotite, float64 model of its coordinates or None = take the object's own)."""
+    import biotite.structure as struc
+
+    n = len(F)
+    mob = F.copy()
+    mob[0, 1] += 1.0
+    mob = mob @ sp.ROT24_F[8].T + np.array([5.0, -2.0, -6.0])
+    v = np.array([1.5, -2.0, 0.25])
+    ang = [0.3, -1.1, 2.0]
+    Rm = sp.axis_rotation(2, ang[2]) @ sp.axis_rotation(1, ang[1]) @ sp.axis_rotation(0, ang[0])
+    big = np.concatenate([mob, mob[::-1] + 3.0])
+    if kind == "fitted_nd":
+        return struc.superimpose(F + 0.5, mob)[0], None
+    if kind == "fitted_aa":
+        return struc.superimpose(_rich_array(F + 0.5), _rich_array(mob))[0], None
+    if kind == "applied":
+        return struc.superimpose(F + 0.5, mob)[1].apply(_rich_array(mob)), None
+    if kind == "translated":
+        return struc.translate(_rich_array(mob), v), mob + v
+    if kind == "rotated":
+        return struc.rotate(mob.astype(np.float32), ang), mob @ Rm.T
+    if kind == "rot_centered":
+        c = mob.mean(axis=0)
+        return struc.rotate_centered(_rich_array(mob), ang), (mob - c) @ Rm.T + c
+    if kind == "aa_strided":
+        return _rich_array(big)[::2][: n], big[::2][:n]
+    if kind == "aa_masked":
+        m = np.array([True] * n + [False] * n)
+        return _rich_array(big)[m], mob
+    if kind == "aa_unsorted":
+        idx = np.array(list(range(n))[::-1])
+        return _rich_array(big)[idx], big[idx]
+    st = _rich_array([mob + 2.0, mob, mob - 1.0], 3)
+    if kind == "stack_model":
+        return st[1], mob
+    if kind == "stack_reordered":
+        return st[[2, 1]], np.stack([mob - 1.0, mob])
+    if kind == "stack_atomslice":
+        st2 = _rich_array([big + 2.0, big], 2)
+        return st2[:, :n], np.stack([mob + 2.0, mob])
+    if kind == "coord_view":
+        return struc.coord(_rich_array(big))[:n], mob
+    raise ValueError(kind)
+
+
+def run_derived_case(ctx, case):
+    import biotite.structure as struc
+
+    kind, op = case["derived"], case["op"]
+    F = np.array(case["fixed"], dtype=np.float64)
+    n = len(F)
+    cls = "derived/%s/%s" % (kind, op)
+    ctx.ev(1, 1 if n >= 2 else 0)
+    ctx.count("accepted")
+    ctx.count("ev_audit_derived")
+    try:
+        obj, model = derive(kind, F)
+        got = coords_of(obj)
+        if model is not None:
+            if got.shape != model.shape or np.max(np.abs(got - model)) > 1e-5 * (1 + np.max(np.abs(model))):
+                ctx.violation("transform|wrong_coordinates|" + kind, "derived coordinates differ from the textbook "
+                              "value (translate: x+v; rotate: Rz Ry Rx x; indexing: numpy semantics)", case,
+                              expected=model, observed=got)
+                return
+        M = got.reshape((-1, n, 3))            # what biotite was really given (float32 values, exactly)
+        keep = _state(obj)
+        fixed_obj = F.copy() if isinstance(obj, np.ndarray) else _rich_array(F)
+        if op == "superimpose":
+            fitted, tr = struc.superimpose(fixed_obj, obj)
+            anchors = None
+        elif op == "outliers":
+            fitted, tr, anchors = struc.superimpose_without_outliers(fixed_obj, obj, min_anchors=1)
+        else:
+            tr = struc.superimpose(fixed_obj, obj)[1]
+            fitted = tr.apply(obj)
+            rm = np.atleast_1d(np.asarray(struc.rmsd(fixed_obj, fitted), dtype=np.float64))
+            anchors = None
+        if _state(obj) != keep:
+            ctx.violation("superimpose|input_mutated|" + cls, "a derived input was modified", case)
+        if type(fitted) is not type(obj) or coords_of(fitted).shape != got.shape:
+            ctx.violation("superimpose|shape|" + cls, "fitted has another type / shape than the derived mobile", case)
+            return
+        fit = coords_of(fitted).reshape((-1, n, 3))
+        m = fit.shape[0]
+        R, ct, tt, mat = extract(tr, m)
+        w = None
+        if anchors is not None:
+            w = np.zeros(n, dtype=bool)
+            w[np.asarray(anchors)] = True
+        judge(ctx, "superimpose" if anchors is None else "superimpose_without_outliers", cls, case, F, M, w, fit, R,
+              ct, tt, mat, selfcheck=False)
+        if op == "apply_rmsd":
+            want = sp.rmsd(F, fit)
+            if rm.shape != want.shape or np.any(np.abs(rm - want) > 1e-5 * (1 + np.max(np.abs(fit)))):
+                ctx.violation("rmsd|wrong_value|" + cls, "rmsd() differs from the float64 definition", case,
+                              expected=want, observed=rm)
+    except Exception as e:  # noqa: BLE001
+        ctx.violation("superimpose|raises_%s|%s" % (type(e).__name__, cls), "derived input raised: %s" % e, case,
+                      observed=repr(e)[:300])
+        return
+    ctx.outcome(("derived", kind, op, n))
+
+
+def derived_cases():
+    for F in audit_sets():
+        for kind in DERIVED:
+            for op in DERIVED_OPS:
+                yield {"kind": "audit", "fam": "derived", "fixed": F, "derived": kind, "op": op}
+
+
+AUDIT2_SHARDS = [{"kind": "audit", "fam": f} for f in ("identity", "bparam", "combo", "derived")]
+
+
+def run_audit2_shard(shard, ctx):
+    fam = shard["fam"]
+    if fam == "identity":
+        for c in identity_cases():
+            if ctx.journal(json.dumps(c)):
+                run_identity_case(ctx, c)
+    elif fam == "bparam":
+        from mc import ccd
+
+        ccd.install_ccd()
+        for nd in ("0d", "1d", "4d"):
+            run_ndim_case(ctx, {"kind": "audit", "fam": "ndim", "ndim": nd})
+        for c in hparam_cases():
+            if ctx.journal(json.dumps(c)):
+                run_homolog_case(ctx, c)
+    elif fam == "combo":
+        for d in combo_descs(ctx.seed):
+            run_fit_batch(ctx, d)
+    elif fam == "derived":
+        for c in derived_cases():
+            if ctx.journal(json.dumps(c)):
+                run_derived_case(ctx, c)
